@@ -373,6 +373,7 @@ class Unit:
         self.trusted = []  # human-readable assumption strings
         self.rules_log = []
         self.raw_files = []
+        self.stubs = []
 
     def raw(self, text, origin="inline"):
         self.chunks.append(("raw", text, origin))
@@ -392,6 +393,12 @@ class Unit:
         self.fns.append(w)
         self.chunks.append(("fn", w))
         return w
+
+    def stub_of(self, w, extra_requires=(), note=""):
+        """Emit another unit's real function as a bodiless stub carrying exactly its woven contract
+        (the caller is checked against the callee's contract, not its body)."""
+        self.chunks.append(("stub", w, list(extra_requires)))
+        self.stubs.append((w.qual(), note))
 
     def real_item(self, rel, item_re, transform=None, note=""):
         text, line, _ = extract_item(rel, item_re)
@@ -438,6 +445,26 @@ class Unit:
                 for k, ln in enumerate(t2.rstrip("\n").split("\n")):
                     lines.append(ln)
                     lmap.append({"kind": "item", "src": rel, "sline": line + k})
+            elif ch[0] == "stub":
+                w = ch[1]
+                fq = "stub:" + w.qual()
+                emit("#[verifier::external_body]", {"kind": "ghost"})
+                hdr = w.header_new if w.header_new is not None else w.ex.header.rstrip()
+                emit(hdr, {"kind": "stubheader", "callee": fq})
+                reqs = [(None, r) if not isinstance(r, tuple) else r for r in list(w.requires) + list(ch[2])]
+                if reqs:
+                    emit("    requires", {"kind": "ghost"})
+                    for lab, r in reqs:
+                        info = {"kind": "stubrequires", "callee": fq}
+                        if lab:
+                            info["label"] = lab
+                        emit("        %s," % r, info)
+                if w.ensures:
+                    emit("    ensures", {"kind": "ghost"})
+                    for lab, txt in w.ensures:
+                        for k, ln in enumerate(txt.split("\n")):
+                            emit("        %s%s" % (ln, "," if k == len(txt.split("\n")) - 1 else ""), {"kind": "stubensures", "callee": fq})
+                emit("{ unimplemented!() }", {"kind": "ghost"})
             else:
                 w = ch[1]
                 fq = w.qual()
@@ -456,7 +483,10 @@ class Unit:
                 if w.requires:
                     emit("    requires", {"kind": "ghost", "fn": fq})
                     for r in w.requires:
-                        emit("        %s," % r, {"kind": "requires", "fn": fq})
+                        if isinstance(r, tuple):
+                            emit("        %s," % r[1], {"kind": "requires", "fn": fq, "label": r[0]})
+                        else:
+                            emit("        %s," % r, {"kind": "requires", "fn": fq})
                 if w.ensures:
                     emit("    ensures", {"kind": "ghost", "fn": fq})
                     for lab, txt in w.ensures:
